@@ -195,14 +195,16 @@ static void log_obs(const char *what)
     if (mc_verbose) { char o[600]; w_fmt_obs(o, sizeof o); mc_log("      t=%u %s -> %s\n", W_NOW, what, o); }
 }
 /* --opt appt=1: with every accepted request the application arms a timer of its own that is due before the transfer's timeout (after 3 ticks, timeouts of 5 ticks) and deletes it two ticks later,
- * appt=2: a timer of one tick that elapses on its own - the timeout is then not the first event of the timer list and inherits the head's remaining time */
+ * appt=2: a timer of one tick that elapses on its own - the timeout is then not the first event of the timer list and inherits the head's remaining time,
+ * appt=3: before a request the application arms a timer that is due on exactly the tick of the transfer's timeout and keeps it across transfers until it elapses:
+ *         the timeout is the last action of a shared timer event, a back-to-back transfer with the same timeout joins the same event again */
 static int APPT_MODE;
 static void appt_cb(void *p) { (void)p; }
 static void appt_drop(void) { if (H.appt >= 0) { (void)COTmrDelete(&Node.Tmr, (int16_t)H.appt); H.appt = -1; } }
 static void do_tick(void)
 {
     w_obs_clear(); w_tick(&Node, 1); mc_steps++;
-    if (H.appt >= 0) { if (APPT_MODE == 2) H.appt = -1; else if (++H.appt_age >= 2) appt_drop(); }
+    if (H.appt >= 0) { if (APPT_MODE == 2) H.appt = -1; else if (APPT_MODE == 3) { if (--H.appt_age <= 0) H.appt = -1; } else if (++H.appt_age >= 2) appt_drop(); }
     if (H.active && H.remaining > 0) H.remaining--;
     if (mc_verbose && (OBS.ntx || OBS.ncb)) log_obs("tick");
 }
@@ -360,13 +362,13 @@ static void finish(uint32_t code)
     int s = H.seq;
     H.active = 0; H.done[s]++; H.code[s] = code; H.fin_os[s] = H.os;
     mc_log("    transfer %d finished with code %08X\n", s, code);
-    appt_drop();
+    if (APPT_MODE != 3) appt_drop();
     if (H.chained) chain_aftermath();
     H.chain = 0;
     check_guards(s);
     if (!FAILED && code == 0 && H.t.dir == UP) check_content(s, H.os, "");
     if (!FAILED && !noleak) {
-        int a = tmr_used_act(), t = tmr_used_tim();
+        int a = tmr_used_act() - (H.appt >= 0), t = tmr_used_tim() - (H.appt >= 0);
         if (a != H.act0 || t != H.tim0) FAIL("csdo-timer-leak", "after the %s transfer completed with code %08X %d timer action(s) / %d timer event(s) are in use, %d / %d before the request", H.t.dir == UP ? "upload" : "download", code, a, t, H.act0, H.tim0);
     }
 }
@@ -460,8 +462,9 @@ static void tr_request(void)
     CO_ERR err; React r; uint8_t e[8];
     CO_CSDO *c = COCSdoFind(&Node, C19_CLIENT);
     if (c == 0) { FAIL("csdo-request-refused", "COCSdoFind returns NULL for the enabled client 0 before transfer %d", H.seq); return; }
-    appt_drop();
-    H.act0 = tmr_used_act(); H.tim0 = tmr_used_tim();
+    if (APPT_MODE != 3) appt_drop();
+    H.act0 = tmr_used_act() - (H.appt >= 0); H.tim0 = tmr_used_tim() - (H.appt >= 0);
+    if (APPT_MODE == 3 && H.appt < 0 && H.t.to > 0) { H.appt = COTmrCreate(&Node.Tmr, (uint32_t)H.t.to * MSPT, 0, appt_cb, 0); H.appt_age = (int)((uint32_t)H.t.to * MSPT); }
     w_obs_clear();
     if (H.t.dir == UP) err = COCSdoRequestUpload(c, CO_DEV(H.idx, H.sub), UB[H.seq] + GUARD, (uint32_t)H.t.size, csdo_cb, (uint32_t)H.t.to * MSPT);
     else               err = COCSdoRequestDownload(c, CO_DEV(H.idx, H.sub), UB[H.seq] + GUARD, (uint32_t)H.t.size, csdo_cb, (uint32_t)H.t.to * MSPT);
@@ -476,7 +479,7 @@ static void tr_request(void)
     if (FAILED) return;
     if (H.t.dir == DOWN && H.t.size <= 4) H.off = (uint32_t)H.t.size;
     H.active = 1; H.remaining = H.t.to;
-    if (APPT_MODE && H.appt < 0 && H.t.to > 3) { H.appt = COTmrCreate(&Node.Tmr, APPT_MODE == 2 ? 1 : 3, 0, appt_cb, 0); H.appt_age = 0; }
+    if (APPT_MODE && APPT_MODE != 3 && H.appt < 0 && H.t.to > 3) { H.appt = COTmrCreate(&Node.Tmr, APPT_MODE == 2 ? 1 : 3, 0, appt_cb, 0); H.appt_age = 0; }
     if (H.stale) {
         /* the late answer of the previous transfer arrives now; the real answer follows */
         H.stale = 0;
@@ -604,6 +607,7 @@ static void leaf(void)
         if (!FAILED && H.dirs[i] == UP && H.done[i] == 1 && H.code[i] == 0) check_content(i, H.fin_os[i], " (checked again at the end of the sequence)");
         if (!FAILED && H.done[i] != 1) FAIL("csdo-callback-count", "transfer %d of the sequence got %d completion callbacks", i, H.done[i]);
     }
+    appt_drop();
     if (!FAILED) { int a = tmr_used_act(), t = tmr_used_tim(); if (a != H.act_init || t != H.tim_init) FAIL("csdo-timer-leak", "at the end of the sequence %d timer action(s) / %d event(s) are in use, %d / %d initially", a, t, H.act_init, H.tim_init); }
     if (mc_verbose) { char b[400]; cid_text(b, sizeof b); mc_log("  sequence: %s\n", b); }
     case_close();
